@@ -244,6 +244,10 @@ func (matrix *DenseFloat64Matrix) AsVector() Vector {
   return DenseFloat64Vector(matrix.values)
 }
 func (matrix *DenseFloat64Matrix) storageLocation() uintptr {
+  if len(matrix.values) == 0 {
+    // no storage to point into: the matrix header identifies an empty matrix
+    return uintptr(unsafe.Pointer(matrix))
+  }
   return uintptr(unsafe.Pointer(&matrix.values[0]))
 }
 /* const interface
